@@ -33,7 +33,11 @@ def canon_guard(test, repo, module, cls=None, env=None, negate=False):
     integer strict/non-strict bounds unified to `>`/`<` forms where the bound is a constant"""
     e = _Folder(repo, module, cls, env).visit(_copy(test))
     e = _push_not(e, negate)
-    return ast.unparse(_order(e))
+    t = ast.unparse(ast.fix_missing_locations(_order(e)))
+    try:
+        return ast.unparse(ast.parse(t, mode='eval').body)
+    except SyntaxError:
+        return t
 
 
 def _push_not(e, neg):
